@@ -265,9 +265,9 @@ _CG_CACHE: dict[int, object] = {}
 def get_cg(prog: Program):
     from geolint import callgraph
 
-    if id(prog) not in _CG_CACHE:
-        _CG_CACHE[id(prog)] = callgraph.build(prog)
-    return _CG_CACHE[id(prog)]
+    if getattr(prog, '_cache_cg', None) is None:
+        prog._cache_cg = callgraph.build(prog)
+    return prog._cache_cg
 
 
 def _error_rules(run: Run, prog: Program, exc: str, entries: list[str], payload: bool = False, quad: list[str] | None = None):
@@ -295,7 +295,8 @@ def check_c02(run: Run, prog: Program) -> None:
         "Point.join, Subspace.meet/join, Line(p, q) and Plane(...); the zero test reads the contraction before it is normalised or "
         "returned (validate before use); in the collection case the mask passed is the tested array; nothing inside the entry points' "
         "own call tree intercepts the error; the tolerance of a zero test in that call tree does not depend on a whole-array reduction (which "
-        "would make the verdict for one position of a collection depend on the others). NOT decided: 'exactly when' - the tolerance arithmetic of is_zero and the condition itself."
+        "would make the verdict for one position of a collection depend on the others); and (E14.id) join/meet issue the same contraction whether the "
+        "caller passes one object twice or two equal objects (tensor diagrams identify nodes by identity). NOT decided: 'exactly when' - the tolerance arithmetic of is_zero and the condition itself."
     )
     entries = ["join", "meet", "PointTensor.join", "SubspaceTensor.meet", "SubspaceTensor.join", "LineTensor.__init__", "PlaneTensor.__init__"]
     s1 = _error_rules(run, prog, "LinearDependenceError", entries, payload=True)
@@ -313,6 +314,10 @@ def check_c02(run: Run, prog: Program) -> None:
         if f is not None:
             reach |= cg.reachable(f)
     run.stats["tolerance_arguments"] = kinds.rule_K8(run, prog, only=reach)
+    # the most canonical degenerate input, join(p, p) with ONE object, must behave like join(p, <equal copy>)
+    from geolint import diagram
+
+    run.stats["operand_identity_scenarios"] = diagram.rule_alias(run, prog)
 
 
 # ================================================================================================ C11
@@ -437,12 +442,19 @@ def check_c05(run: Run, prog: Program) -> None:
 
     run.title = "Tensor diagrams equal the Einstein sum they denote; epsilon/delta are exact"
     run.clause = (
-        "decides two clauses (thin): (i) both TensorComputationError guards of add_edge exist, are reachable and validate before the "
-        "indices they test are consumed/recorded; (ii) the epsilon/delta caches are filled only by the owning constructor on the miss "
-        "path with a fresh array that depends on the cache key alone, and no array aliasing a cache is ever written anywhere in the "
-        "package (so 'equal their definitions entry by entry' cannot be broken by history). NOT decided: that calculate() builds the "
-        "right einsum subscripts and that the epsilon/delta entries are right - the heart of the property; a mutant there is invisible."
+        "decides (E14) the first sentence over diagram SHAPES: for every diagram of an enumerated domain (node types with up to two collection "
+        "axes and three tensor indices, both storage layouts; two nodes with up to three edges incl. repeated and opposite edges; three-node chains, "
+        "stars and cycles) the np.einsum call that calculate() issues - recorded by abstract interpretation of __init__/add_node/add_edge/calculate - "
+        "pairs the first unused covariant index of each source with the first unused contravariant index of its target, broadcasts collection axes "
+        "from the right, orders the result covariant-first in node order and types it so; exhausted indices and mismatching dimensions raise "
+        "TensorComputationError. Plus (i) both guards of add_edge exist, are reachable and validate before the indices they test are consumed; "
+        "(ii) the epsilon/delta caches are filled only by the owning constructor on the miss path with a fresh array that depends on the cache key "
+        "alone, and no array aliasing a cache is ever written. NOT decided: what np.einsum computes, larger diagrams, and that the epsilon/delta "
+        "ENTRIES are right."
     )
+    from geolint import diagram
+
+    run.stats["diagram_shapes"] = diagram.rule_E14(run, prog)
     sites = _error_rules(run, prog, "TensorComputationError", ["TensorDiagram.add_edge", "TensorDiagram.__init__"])
     run.floor("TensorComputationError raise sites", len(sites), 2)
     nc = purity.rule_caches(run, prog)
